@@ -329,6 +329,15 @@ func (i *insertExecutor) parsePkValuesFromStatement(insertStmt *ast.InsertStmt, 
 		return nil, nil
 	}
 	pkIndexMap := i.getPkIndex(insertStmt, meta)
+	if len(pkIndexMap) == 0 && len(insertStmt.Columns) == 0 {
+		// INSERT without a column list: the values follow the table's column order
+		pkIndexMap = make(map[string]int)
+		for idx, name := range meta.ColumnNames {
+			if i.containPK(name, meta) {
+				pkIndexMap[name] = idx
+			}
+		}
+	}
 	if pkIndexMap == nil || len(pkIndexMap) == 0 {
 		return nil, fmt.Errorf("pkIndex is not found")
 	}
